@@ -76,7 +76,7 @@ var fnValues = []string{
 	"$substring(?, 1)", "$append(?, ?)", "($string ~> $uppercase)", "($sum ~> $string ~> $length)", "(function($x){$x} ~> $count)", "|$|{\"t\":1}|", "/a(b)?/", "/a/(\"abab\").next",
 	"($uppercase ~> /A/)", "$each(?, function($v,$k){$k})",
 	// function values that went through a library function (stored by value)
-	"$distinct($sum)", "($distinct($sum) ~> $string)", "($string ~> $distinct($uppercase))", "$single($sum, function($f){true})", "$reverse([$sum, $max])[0]", "$sort($count)[0]",
+	"$filter($sum, function($f){true})[0]", "($reduce($sum, function($a,$b){$b}) ~> $string)", "($string ~> $shuffle($uppercase)[0])", "$distinct($sum)", "$single($sum, function($f){true})", "$reverse([$sum, $max])[0]", "$sort($count)[0]",
 }
 
 // sweepCase returns the i-th call of the systematic sweep.
